@@ -17,18 +17,17 @@ def run(tier, seed, pid='C08', hostile=False, flavour='fast'):
         text, zones, links = tzsrc.reconstruct_cpp(os.path.join(runner.REPO, 'src/ace_time/zonedbx'))
         comp = pipeline.compile_text(text, 'extended')
         names = sorted(comp.zone_infos)
-        if tier != 'thorough':
-            names = names[seed % 8::8]
-        for name, n, viol in zs_history.run(comp.zone_infos, names):
+        main = names if tier == 'thorough' else names[seed % 8::8]     # the year-edge pass runs on every zone in both tiers
+        for name, n, viol in zs_history.run(comp.zone_infos, names, main):
             npy += n
             for v in viol:
                 rep.violation('c08:python:history-dependent', v)
-        c['python_zones'] = len(names)
+        c['python_zones'] = len(names); c['python_zones_all_year_pairs'] = len(main)
         c['python_steps'] = npy
     rep.assumptions += [
         'oracle: the same call on a freshly constructed TimeZone with its own processor (C++) / a fresh ZoneSpecifier (Python)',
         'canonical state key = complete processor cache content read through friend-named accessors (bound ZoneInfo, year, filled flag, every cached transition) plus, for managers, the round-robin index and every slot (guarded hooks verifProcessorCache/verifProcessor); states with equal keys have equal observable futures because queries read nothing else',
-        'worlds: (W1) every zone of both databases with its own processor, 6 calls x 57 argument classes (years 1997..2052 + sentinel), explored to fixpoint; (W2) 2-3 TimeZone values sharing one processor over a forced-collision zone set; (W3) Basic/ExtendedZoneManager with 1..3 (thorough 4) slots holding N+1 / N+2 zones, handles created by rotating createForZoneInfo/Name/Id/Index; (W4) Python ZoneSpecifier, every ordered year pair per zone in one long history',
+        'worlds: (W1) every zone of both databases with its own processor, 6 calls x 57 argument classes (years 1997..2052 + sentinel), explored to fixpoint; (W2) 2-3 TimeZone values sharing one processor over a forced-collision zone set; (W3) Basic/ExtendedZoneManager with 1..3 (thorough 4) slots holding N+1 / N+2 zones, handles created by rotating createForZoneInfo/Name/Id/Index; (W4) Python ZoneSpecifier, every ordered year pair per zone in one long history (quick: every 8th zone), plus for every zone and three option sets (default, 13-month, 13-month with the basic finder/selector) year-edge lookups - local Jan 1 00:30, Dec 31 23:30, Jan 1 12:00Z - with the previous, same and next year cached by each kind of call',
         'shared and managed worlds are additionally explored statelessly (every sequence of 3 calls, 4 in the thorough tier, over a reduced alphabet, no state matching), so that behaviour depending on state outside the canonical key is still reached within that depth',
         'a world that crashes is reported with the last recorded step and abandoned (counted in worlds_aborted_by_crash)',
     ]
